@@ -70,6 +70,15 @@ func ruleCacheInv(w *World, r *Report) {
 			if b, ok := c.Value.(*ssa.Builtin); ok && b.Name() == "delete" && len(c.Args) > 0 && isFieldLoad(c.Args[0], owner, "cachedRules") {
 				return true
 			}
+			// a cache that is a sync.Map (or another container with methods): s.cachedRules.Delete(id), .Clear(), .Range(...)
+			if f := c.StaticCallee(); f != nil && f.Signature.Recv() != nil && len(c.Args) > 0 {
+				switch f.Name() {
+				case "Delete", "LoadAndDelete", "Clear", "Range", "Purge", "Remove":
+					if n, fld, _, ok := fieldOf(c.Args[0]); ok && typeKey(n) == owner && fld == "cachedRules" {
+						return true
+					}
+				}
+			}
 		}
 		_, ok := storesToField(in, owner, "cachedRules")
 		return ok
